@@ -8,4 +8,5 @@ own file (`./check C04` audits every `Props/C04_*.lean`):
 * `C04_ab.lean`    — alpha-beta: the move generator only yields validated moves (`next_legal`), PV head legal
 * `C04_book.lean`  — opening book: book moves are legal in the position looked up, for all symmetric images
 * `C04_mcts.lean`  — Monte-Carlo player: the answer is one of the root's (legal) children; corner forcing
+* `C04_policy.lean` — Monte-Carlo rollouts: both rollout policies return legal successors without panic, `rollout` is total
 -/
